@@ -256,7 +256,10 @@ func ParseSliceHeader(nalu []byte, spsMap map[uint32]*SPS, ppsMap map[uint32]*PP
 			sh.ChromaLog2WeightDenom = uint32(r.ReadExpGolomb())
 		}
 
-		for i := uint32(0); i <= sh.NumRefIdxL0ActiveMinus1; i++ {
+		for i := uint64(0); i <= uint64(sh.NumRefIdxL0ActiveMinus1); i++ {
+			if r.AccError() != nil {
+				break // the count is untrusted: do not keep iterating past the end of the data
+			}
 			lumaWeightL0Flag := r.ReadFlag()
 			if lumaWeightL0Flag {
 				// Just parse, don't store this
@@ -275,7 +278,10 @@ func ParseSliceHeader(nalu []byte, spsMap map[uint32]*SPS, ppsMap map[uint32]*PP
 			}
 		}
 		if sliceType == SLICE_B {
-			for i := uint32(0); i <= sh.NumRefIdxL1ActiveMinus1; i++ {
+			for i := uint64(0); i <= uint64(sh.NumRefIdxL1ActiveMinus1); i++ {
+				if r.AccError() != nil {
+					break
+				}
 				lumaWeightL1Flag := r.ReadFlag()
 				if lumaWeightL1Flag {
 					// Just parse, don't store this
@@ -352,6 +358,9 @@ func ParseSliceHeader(nalu []byte, spsMap map[uint32]*SPS, ppsMap map[uint32]*PP
 		pps.SliceGroupMapType <= 5 {
 		picSizeInMapUnits := pps.PicSizeInMapUnitsMinus1 + 1
 		sliceGroupChangeRate := pps.SliceGroupChangeRateMinus1 + 1
+		if sliceGroupChangeRate == 0 { // minus1 value of all ones: would divide by zero below
+			return nil, fmt.Errorf("invalid slice_group_change_rate_minus1 in PPS %d", sh.PicParamID)
+		}
 		nrBits := int(math.Ceil(math.Log2(float64(picSizeInMapUnits/sliceGroupChangeRate + 1))))
 		sh.SliceGroupChangeCycle = uint32(r.Read(nrBits))
 	}
